@@ -34,7 +34,7 @@ type c17Rep struct {
 	Host    string `json:"host"`
 	Offline bool   `json:"offline"`
 	Lag     int    `json:"lag"`     // index into c17Lags
-	Repl    int    `json:"repl"`    // 0 fine, 1 error (not permanent), 2 broken SQL 1146, 3 broken IO 13114
+	Repl    int    `json:"repl"`    // 0 fine, 1 error (not permanent), 2 broken SQL 1146, 3 broken IO 13114, 4 both threads in error: SQL 1062 (not permanent) and IO 13114 (permanent)
 	Resetup int    `json:"resetup"` // 0 negative+fresh, 1 positive, 2 older than server start, 3 absent
 }
 
@@ -124,6 +124,9 @@ func c17Run(r *vt.Run, c c17Case) {
 			case 2:
 				s.SQLRunning, s.SQLErrno, s.SQLError = false, 1146, "Table doesn't exist"
 			case 3:
+				s.IORunning, s.IOErrno, s.IOError = false, 13114, "Got fatal error 1236"
+			case 4:
+				s.SQLRunning, s.SQLErrno, s.SQLError = false, 1062, "Duplicate entry"
 				s.IORunning, s.IOErrno, s.IOError = false, 13114, "Got fatal error 1236"
 			}
 			now := time.Now()
@@ -309,7 +312,7 @@ func checkC17(r *vt.Run) {
 	// Grid A: single replica, the whole per-replica decision table
 	for _, off := range []bool{false, true} {
 		for lag := range c17Lags {
-			for repl := 0; repl < 4; repl++ {
+			for repl := 0; repl < 5; repl++ {
 				for rs := 0; rs < 4; rs++ {
 					for _, mro := range []bool{false, true} {
 						for _, pct := range []int{0, 50, 100} {
